@@ -37,6 +37,11 @@ class SourceBase:
         if fault:
             self.fault_exc = make_exc(fault["exc"], f"planned:{name}")
             ctx.planned[name] = self.fault_exc
+        self.close_fault = None
+        self.close_raised = False
+        if spec.get("cfault"):
+            self.close_fault = make_exc(spec["cfault"], f"planned-close:{name}")
+            ctx.planned[f"{name}.aclose"] = self.close_fault
         self.exhausted = False
         self.failed = False
         self.close_calls = 0
@@ -161,6 +166,11 @@ class AClassSource(SourceBase):
         if first and self.csusp:
             await self.ctx.suspend((self.name, "cleanup"))
         self.closed = True
+        if self.close_fault is not None and not self.close_raised:
+            # the source's own cleanup fails (once): that error belongs to the user, too
+            self.close_raised = True
+            self.ctx.ev("close-fault", self.name)
+            raise self.close_fault
 
     @property
     def released(self):
